@@ -455,6 +455,7 @@ func runMain(args []string) {
 	}
 	busy := 0
 	stop := false
+	procs := map[int]*os.Process{}
 	nw := *workers
 	if nw > 64 {
 		nw = 64
@@ -472,6 +473,7 @@ func runMain(args []string) {
 				return
 			}
 			mu.Lock()
+			procs[id] = w.cmd.Process
 			if id == 0 || out.LoadS == 0 {
 				out.InitFailed = ready.InitFailed
 				out.LoadS = ready.LoadS
@@ -541,18 +543,29 @@ func runMain(args []string) {
 					if err != nil {
 						msg = "worker died: " + err.Error()
 					}
-					acc.Stats.Inconclusive = append(acc.Stats.Inconclusive, "worker failure: "+msg)
+					if !stop { // (after the time limit workers are killed on purpose)
+						acc.Stats.Inconclusive = append(acc.Stats.Inconclusive, "worker failure: "+msg)
+					}
 					mu.Unlock()
 					cond.Broadcast()
 					if err != nil {
 						// respawn
 						w.cmd.Process.Kill()
 						w.cmd.Wait()
+						mu.Lock()
+						stopped := stop
+						mu.Unlock()
+						if stopped {
+							return
+						}
 						nwk, _, e2 := startWorker(id, &lf)
 						if e2 != nil {
 							return
 						}
 						w = nwk
+						mu.Lock()
+						procs[id] = w.cmd.Process
+						mu.Unlock()
 					}
 					continue
 				}
@@ -573,6 +586,9 @@ func runMain(args []string) {
 			mu.Lock()
 			stop = true
 			out.TimedOut = true
+			for _, p := range procs {
+				p.Kill() // out of time: in-flight requests are abandoned (their items stay unexplored)
+			}
 			mu.Unlock()
 			cond.Broadcast()
 		}()
@@ -580,7 +596,7 @@ func runMain(args []string) {
 	wg.Wait()
 	mu.Lock()
 	for _, a := range out.Harnesses {
-		a.Exhausted = a.pending == 0 && !out.TimedOut
+		a.Exhausted = a.pending == 0
 		if a.pending != 0 {
 			a.Stats.Inconclusive = append(a.Stats.Inconclusive, fmt.Sprintf("time budget: %d work items unexplored", a.pending))
 		}
